@@ -2,10 +2,15 @@
 import itertools
 
 from checks import session as ss
-from checks.session import (ENGINE, LEVEL, RUN_TIMEOUT_S, warmup, shrink_candidates, trace_size, signature, sample,
+from checks.session import (ENGINE, LEVEL, RUN_TIMEOUT_S, shrink_candidates, trace_size, signature, sample,
                             matches_known, obs_enum, obs_x, obs_instance, obs_dvs, _num)
 
 PROPERTY = 'C15'
+
+
+def warmup():
+    return ss.warmup(with_selector=False)  # no connection choices here: keep the forked image small
+
 WEIGHTS = {'decode': 5, 'enumerate': 3, 'n_valid': 1, 'stats': 0.5, 'fix': 5, 'free': 3}
 
 
